@@ -1866,7 +1866,7 @@ def cli_subprocess_exit(chk):
         srv.server_close()
 
 
-def cli_subprocess_traffic(chk):
+def _cli_traffic_scenario(chk, scenario):
     """The real `st run` in a subprocess, report files at their DEFAULT location (`--report=vcr,junit --report-dir`), in a
     process whose locale encoding is not UTF-8 (LC_ALL=C, no UTF-8 mode, no locale coercion; stdio kept UTF-8), against a
     loopback API that logs every request it serves, answers with non-ASCII JSON, declares bearer security and does not
@@ -1877,8 +1877,11 @@ def cli_subprocess_traffic(chk):
     import http.server
     import subprocess
     import xml.etree.ElementTree as ET
+    two = scenario == "enforced-two-schemes"
     schema = {"openapi": "3.0.0", "info": {"title": "t", "version": "1"},
-              "components": {"securitySchemes": {"tok": {"type": "http", "scheme": "bearer"}}}, "security": [{"tok": []}],
+              "components": {"securitySchemes": {"tok": {"type": "http", "scheme": "bearer"}} if not two else {
+                  "hk": {"type": "apiKey", "in": "header", "name": "X-Key"}, "qk": {"type": "apiKey", "in": "query", "name": "api_key"}}},
+              "security": [{"tok": []}] if not two else [{"hk": [], "qk": []}],
               "paths": {"/sec": {"get": {"parameters": [{"name": "q", "in": "query", "schema": {"type": "integer"}}],
                                          "responses": {"200": {"description": "ok", "content": {"application/json": {
                                              "schema": {"type": "object"}}}}}}}}}
@@ -1898,6 +1901,13 @@ def cli_subprocess_traffic(chk):
                 if self.path.startswith("/sec"):        # (the probing phase asks for "/" - not an exchange of a test case)
                     hits.append((self.path, self.headers.get("Authorization")))
                 b = json.dumps({"msg": text}, ensure_ascii=False).encode("utf-8")
+                if two and not (self.headers.get("X-Key") == "good" and "api_key=good" in self.path):
+                    self.send_response(401)             # both keys are required and enforced
+                    self.send_header("Content-Type", "application/json; charset=utf-8")
+                    self.send_header("Content-Length", str(len(b)))
+                    self.end_headers()
+                    self.wfile.write(b)
+                    return
             self.send_response(200)
             self.send_header("Content-Type", "application/json; charset=utf-8")
             self.send_header("Content-Length", str(len(b)))
@@ -1912,7 +1922,8 @@ def cli_subprocess_traffic(chk):
             rdir = os.path.join(td, "reports")
             env = dict(os.environ, LC_ALL="C", LANG="C", PYTHONUTF8="0", PYTHONCOERCECLOCALE="0", PYTHONIOENCODING="utf-8")
             cmd = [sys.executable, "-m", "schemathesis.cli", "run", f"http://127.0.0.1:{port}/openapi.json", "--phases=fuzzing",
-                   "--max-examples=3", "--seed=1", "--checks=ignored_auth", "-H", "Authorization: Bearer good",
+                   "--max-examples=3", "--seed=1", "--checks=ignored_auth"] + (
+                       ["-H", "Authorization: Bearer good"] if not two else ["-H", "X-Key: good", "--set-query", "api_key=good"]) + [
                    "--report=vcr,junit", f"--report-dir={rdir}"]
             p = subprocess.run(cmd, capture_output=True, text=True, encoding="utf-8", errors="replace", cwd=td, timeout=600, env=env)
             served = list(hits)
@@ -1923,9 +1934,9 @@ def cli_subprocess_traffic(chk):
             junit = open(junit_path, "rb").read() if os.path.exists(junit_path) else None
         replay = {"kind": "cli-traffic", "argv": cmd[3:], "env": {k: env[k] for k in ("LC_ALL", "PYTHONUTF8", "PYTHONCOERCECLOCALE")},
                   "served": [list(h) for h in served], "rc": p.returncode, "stderr": p.stderr[-1200:], "stdout_tail": p.stdout[-600:]}
-        chk.case("st-run:traffic", key=["vcr,junit", "default-location", "C-locale"], nontrivial=True,
+        chk.case("st-run:traffic", key=["vcr,junit", "default-location", "C-locale", scenario], nontrivial=True,
                  sample={"served": len(served), "rc": p.returncode})
-        chk.feature(f"st-run:traffic:rc={p.returncode}")
+        chk.feature(f"st-run:traffic:{scenario}:rc={p.returncode}:served={min(len(served), 9)}")
         if p.returncode not in (0, 1) or "Traceback" in p.stderr:
             chk.violation("C16:st-run:run-aborted-while-reports-were-written",
                           f"`st run --report=vcr,junit` under LC_ALL=C ended with exit code {p.returncode}: {p.stderr[-300:]!r}", replay)
@@ -1948,6 +1959,8 @@ def cli_subprocess_traffic(chk):
                                   f"response body recorded as {body[:80]!r}; the API sent {text!r} in it", replay)
                     break
             for d in docs:
+                if two:
+                    break
                 auth = ((d.get("request") or {}).get("headers") or {}).get("Authorization")
                 failed = [c["name"] for c in d.get("checks") or [] if c.get("status") == "FAILURE"]
                 chk.feature(f"st-run:traffic:exchange-with-credentials={auth is not None}:failed={bool(failed)}")
@@ -1973,6 +1986,14 @@ def cli_subprocess_traffic(chk):
     finally:
         srv.shutdown()
         srv.server_close()
+
+
+def cli_subprocess_traffic(chk):
+    """two APIs: one that declares bearer security without enforcing it (ignored_auth fails on its own first probe), one
+    that requires two api keys (header + query) and enforces them (ignored_auth sends a probe without credentials and one
+    per scheme with an invalid value; all are answered 401 and the check passes)"""
+    for scenario in ("not-enforced", "enforced-two-schemes"):
+        _cli_traffic_scenario(chk, scenario)
 
 
 def exit_corr(chk, rng, n, join_variant, click_owns):
